@@ -120,6 +120,8 @@ def val_eq(m, a, b):
             r = b_and(r, elem_eq(m, x, y))
         return r
     if isinstance(a, Enum) and isinstance(b, Enum):
+        if is_sym(a.idx) or is_sym(b.idx):
+            return i_cmp("eq", a.idx, b.idx)      # field-less enum with a symbolic discriminant (e.g. Weekday)
         if a.idx != b.idx:
             return False
         r = True
@@ -428,6 +430,12 @@ def _from(m, c):
         return m.new_arc(v)
     if d.k == "adt" and d.name == "Box":
         return BoxV(v)
+    if d.k == "adt" and d.name in ("HashMap", "IndexMap", "BTreeMap"):
+        from .models_coll import map_from_pairs
+        return map_from_pairs(m, as_list(m, v))
+    if d.k == "adt" and d.name in ("HashSet", "IndexSet", "BTreeSet"):
+        from .models_coll import set_from_items
+        return set_from_items(m, as_list(m, v))
     if c.cal.method == "into" and c.cal.trait == "Into":
         # blanket impl: Into<U> for T  ==  U::from(T)
         st = c.self_ty
@@ -444,6 +452,8 @@ def _try_from(m, c):
     d = c.destty
     # Result<T, E>
     t = d.args[0] if d.k == "adt" and d.name == "Result" and d.args else None
+    if t is not None and t.k == "adt" and t.name == "Weekday":
+        return m.models.reg["Weekday::try_from"](m, c)
     rng = m.int_range(t)
     if rng is None or not (isinstance(v, int) or is_sym(v)):
         raise Unsupported("try_from " + show(d))
